@@ -21,8 +21,9 @@ VARIABLES c, done
 vars == <<c, done>>
 Grids == {<<16, 16>>, <<17, 17>>, <<16, 21>>, <<25, 18>>}
 Cutoffs == {"small", "mid", "near_antialias", "beyond_antialias"}
-Aberrations == {"none", "defocus", "C30", "C12", "C21", "C23", "C32", "C34", "C45", "C56", "cs_defocus", "astig_coma"}
-Tilts == {"none", "tilted"}
+Aberrations == {"none", "defocus", "C30", "C12", "C21", "C23", "C32", "C34", "C45", "C56", "cs_defocus", "astig_coma",
+                "defocus_gaussian", "cs_series"}            \* parameter distributions: every member of the built ensemble is a probe
+Tilts == {"none", "tilted", "tilt_distribution", "tilt_pairs"}
 Positions == {"origin", "off_grid", "several", "outside_cell", "grid_scan"}
 Init == /\ \/ \E g \in Grids, cu \in Cutoffs, s \in BOOLEAN, ab \in Aberrations, t \in Tilts, p \in Positions, lz \in BOOLEAN :
                 c = [kind |-> "probe", gpts |-> g, cutoff |-> cu, soft |-> s, ab |-> ab, tilt |-> t, pos |-> p, lazy |-> lz]
